@@ -313,6 +313,7 @@ class C11(Campaign):
                    "re-activation (any number)", "concurrent activation (two tasks)",
                    "second instance of the same class over an empty model with another start_value",
                    "second instance whose own listener brings the only coroutine callbacks (other engine than the first)",
+                   "snapshot of the model<->machine cycle taken from inside an enter callback of the initial activation",
                    "first events from two tasks at once", "nested send from the initial enter callback",
                    "start_value on restart"]
     rule = ("one run = a generated machine driven through a history in which, at seeded points, the machine "
@@ -423,8 +424,33 @@ class C11(Campaign):
                 sc["gv"][c].append(rnd.getrandbits(len(prog["states"])))
         # a failing initial activation: the exception reaches the caller, the initial state is already
         # stored (enter => target), and activating / resuming afterwards runs nothing again
+        init_id = next(s_["id"] for s_ in prog["states"] if s_.get("initial"))
+        init_enters = sorted(c for c, m_ in prog["cbs"].items() if m_["group"] == "enter" and (
+            c.split(".", 1)[1] in ("on_enter_state", f"on_enter_{init_id}")
+            or c.split(".", 1)[1] in next(s_ for s_ in prog["states"] if s_["id"] == init_id).get("enter", [])))
+        if (is_async and init_enters and prog["model"].get("kind") != "none" and first.get("start_value") is None
+                and not any(o.get("keep_model") or o.get("inst") == "B" for o in out) and rnd.random() < 0.3):
+            # the model holds its machine and is copied (an undo history) from INSIDE an enter callback of the
+            # initial activation: the snapshot holds the initial state, nothing is pending on it
+            first["model_holds_machine"] = True
+            c = rnd.choice(init_enters)
+            ep = next((i for i, o in enumerate(out) if i > 0 and o.get("inst") == "A"
+                       and o["op"] in ("send", "activate", "send2", "activate2")), None)
+            if ep is not None:
+                sc["beh"].setdefault(f"{prog['name']}/{c}", []).insert(
+                    0, {"ep": ep, "j": 0, "dp": 0, "snapshot": {"as": "S", "how": rnd.choice(["deepcopy", "pickle"])}})
+                tail = [{"op": "activate", "inst": "S"}] if rnd.random() < 0.6 else []
+                tail += [{"op": "send", "inst": "S", "event": rnd.choice(prog["events"])},
+                         {"op": "activate", "inst": "S"}]
+                at = rnd.randrange(ep + 1, len(out) + 1)
+                out = out[:at] + tail + out[at:]
+                sc["ops"] = out
+                sc["snapshot_from_callback"] = True
+                for g_ in sc["gv"].values():
+                    while len(g_) < len(out):
+                        g_.append(g_[-1])
         enters = sorted(c for c, m_ in prog["cbs"].items() if m_["group"] == "enter")
-        if enters and rnd.random() < 0.2 and not any(o.get("inst") == "B" for o in out):
+        if enters and rnd.random() < 0.2 and not any(o.get("inst") in ("B", "S") for o in out):
             c = rnd.choice(enters)
             ep = 0
             if is_async:
@@ -456,7 +482,7 @@ class C11(Campaign):
         for i, op in enumerate(ops):
             if op["op"] in ("new", "activate", "activate2", "send2"):
                 j.add(i)
-                if op["op"] == "new":
+                if op["op"] == "new" or (op["op"] == "activate" and op.get("inst") == "S"):
                     for k2 in range(i + 1, len(ops)):
                         if ops[k2]["op"] in ("send", "send2") and ops[k2].get("inst") == op.get("inst"):
                             j.add(k2)
